@@ -140,120 +140,4 @@ end Schc
 namespace Schc
 open Bits
 
-theorem content_inj (x y : Bits) (side : Pad) (hl : x.length = y.length)
-    (h : (⟨x, side⟩ : ABuf).content = (⟨y, side⟩ : ABuf).content) : x = y := by
-  have hx := bytesBits_content ⟨x, side⟩
-  have hy := bytesBits_content ⟨y, side⟩
-  rw [h, hy] at hx
-  cases side <;> simp only [hl] at hx
-  · exact (append_inj_left' hx rfl).symm
-  · exact (append_inj_right' hx rfl).symm
-
-/-- `==` between canonical Buffers is bit equality, whatever the padding sides; the operand is untouched -/
-theorem eq_spec (a b : ABuf) : Buf.eq (Buf.ofABuf a) (Buf.ofABuf b) = .ok (a.beq b, Buf.ofABuf b) := by
-  unfold Buf.eq
-  have hf : Gen.eqPadInplace = false := rfl
-  by_cases hl : (Buf.ofABuf a).length ≠ (Buf.ofABuf b).length
-  · rw [if_pos hl]
-    simp only [pure, Except.pure]
-    congr 2
-    simp only [Buf.ofABuf, ABuf.length] at hl
-    simp only [ABuf.beq]
-    have : ¬ a.bits = b.bits := fun e => hl (by rw [e])
-    simp [this]
-  · rw [if_neg hl, hf]
-    simp only [bind, Except.bind, pure, Except.pure, pad_spec, Bool.false_eq_true, if_false]
-    congr 2
-    simp only [Buf.ofABuf, ABuf.length, ne_eq, Decidable.not_not] at hl ⊢
-    simp only [ABuf.beq]
-    by_cases he : a.bits = b.bits
-    · simp [he]
-      obtain ⟨ab, as⟩ := a
-      simp only at he; subst he; rfl
-    · have : ¬ (a.content = (⟨b.bits, a.side⟩ : ABuf).content) := by
-        intro hc; apply he
-        obtain ⟨ab, as⟩ := a
-        exact content_inj ab b.bits as hl hc
-      simp [he, this]
-
-/-- what `__hash__` hashes is the left-padded canonical content: a function of the bits alone -/
-theorem hashKey_spec (a : ABuf) : (Buf.ofABuf a).hashKey = .ok ((⟨a.bits, .left⟩ : ABuf).content, Buf.ofABuf a) := by
-  unfold Buf.hashKey
-  have hf : Gen.hashPadInplace = false := rfl
-  rw [hf]
-  simp only [bind, Except.bind, pure, Except.pure, pad_spec, Bool.false_eq_true, if_false]
-  rfl
-
-theorem toNat_zeros_append (k : Nat) (x : Bits) : Bits.toNat (Bits.zeros k ++ x) = Bits.toNat x := by
-  rw [toNat_append]
-  have : Bits.toNat (Bits.zeros k) = 0 := by
-    induction k with
-    | zero => rfl
-    | succ k ih =>
-      have : Bits.zeros (k + 1) = Bits.zeros k ++ [false] := by simp [Bits.zeros, List.replicate_succ']
-      rw [this, toNat_append_single, ih]; simp
-  rw [this]; simp
-
-theorem bytesToNat_eq (c : List Nat) (hc : AllBytes c) : Buf.bytesToNat c = Bits.toNat (ABuf.bytesBits c) := by
-  induction c with
-  | nil => rfl
-  | cons b bs ih =>
-    rw [Buf.bytesToNat, bytesBits_cons, toNat_append, toNat_ofNat 8 b (hc b (by simp)), bytesBits_length, ih (fun x hx => hc x (List.mem_cons_of_mem _ hx))]
-    congr 2
-    rw [show (256 : Nat) = 2 ^ 8 by rfl, ← Nat.pow_mul]
-
-/-- the tail of `value()`: mask the first byte of the left-padded content and read the bytes big-endian -/
-theorem value_tail (bits : Bits) (s : Buf) :
-    (if (Buf.ofABuf ⟨bits, .left⟩).length > 0 then (do
-        let c0 ← idx (Buf.ofABuf ⟨bits, .left⟩).content 0
-        pure (Buf.bytesToNat ((c0 &&& ((0xff >>> (Buf.ofABuf ⟨bits, .left⟩).padLen) &&& 0xff)) :: (Buf.ofABuf ⟨bits, .left⟩).content.drop 1), s) : Py (Nat × Buf))
-      else pure (Buf.bytesToNat ((Buf.ofABuf ⟨bits, .left⟩).content.drop 1), s)) = .ok (Bits.toNat bits, s) := by
-  have hcb := bytesBits_content ⟨bits, .left⟩
-  simp only at hcb
-  by_cases hn : (Buf.ofABuf ⟨bits, .left⟩).length > 0
-  · simp only [hn, if_true]
-    have hne : 0 < (⟨bits, .left⟩ : ABuf).bits.length := by simpa [Buf.ofABuf, ABuf.length] using hn
-    obtain ⟨v, hv⟩ := idx_content_zero ⟨bits, .left⟩ hne
-    simp only [Buf.ofABuf] at hv ⊢
-    rw [hv]
-    simp only [bind, Except.bind, pure, Except.pure]
-    congr 2
-    have hc : (⟨bits, .left⟩ : ABuf).content = v :: (⟨bits, .left⟩ : ABuf).content.drop 1 := by
-      unfold idx at hv
-      cases hcc : (⟨bits, .left⟩ : ABuf).content with
-      | nil => rw [hcc] at hv; simp at hv
-      | cons x xs =>
-        rw [hcc] at hv
-        have : x = v := by simpa [pure, Except.pure] using hv
-        simp [this]
-    have hab := allBytes_content ⟨bits, .left⟩
-    have hmb : AllBytes ((v &&& ((0xff >>> padLenOf (⟨bits, .left⟩ : ABuf).length) &&& 0xff)) :: (⟨bits, .left⟩ : ABuf).content.drop 1) := by
-      intro x hx
-      rcases List.mem_cons.mp hx with h | h
-      · subst h; exact Nat.lt_of_le_of_lt Nat.and_le_left (hab v (by rw [hc]; simp))
-      · exact hab x (List.mem_of_mem_drop h)
-    rw [bytesToNat_eq _ hmb, mask_first v _ _ (by have := padLen_lt (⟨bits, .left⟩ : ABuf).length; omega), ← hc, hcb]
-    simp only [ABuf.length]
-    rw [List.drop_append_of_le_length (by simp [zeros_length]), List.drop_of_length_le (by simp [zeros_length]), List.nil_append,
-      toNat_zeros_append]
-  · simp only [hn, if_false, pure, Except.pure]
-    have h0 : bits = [] := by
-      have : bits.length = 0 := by simp only [Buf.ofABuf, ABuf.length] at hn; omega
-      exact List.length_eq_zero_iff.mp this
-    congr 2
-    simp [Buf.ofABuf, h0, ABuf.content, ABuf.packBytes, Buf.bytesToNat, Bits.toNat, padLenOf, Bits.zeros]
-
-/-- `value()` is the unsigned big-endian integer the bits spell; the operand is untouched -/
-theorem value_spec (a : ABuf) : (Buf.ofABuf a).value = .ok (Bits.toNat a.bits, Buf.ofABuf a) := by
-  obtain ⟨bits, side⟩ := a
-  have hf : Gen.valuePadInplace = false := rfl
-  unfold Buf.value
-  cases side
-  · simp only [Buf.ofABuf, bind, Except.bind, pure, Except.pure]
-    exact value_tail bits _
-  · have hp := pad_spec ⟨bits, .right⟩ .left false
-    simp only [Buf.ofABuf, Bool.false_eq_true, if_false] at hp
-    simp only [Buf.ofABuf, hf, bind, Except.bind, hp]
-    exact value_tail bits _
-
 end Schc
